@@ -206,11 +206,26 @@ func (n *namer) call(base string) string {
 	result := escaped
 	if len(result) > 0 && result[len(result)-1] >= '0' && result[len(result)-1] <= '9' {
 		result += "_"
-	} else if isKeyword(result) {
+	} else if isKeyword(result) || hasGeneratedNamePrefix(result) {
 		result += "_"
 	}
 
 	return result
+}
+
+// generatedNamePrefixes are the prefixes of the names the writer synthesises
+// outside the namer (interface block members, varyings, immediates).
+var generatedNamePrefixes = []string{"_group_", "_immediates_binding_", "_vs2fs_location", "_fs2p_location"}
+
+// hasGeneratedNamePrefix reports whether a user identifier could collide with
+// a synthesised name.
+func hasGeneratedNamePrefix(name string) bool {
+	for _, prefix := range generatedNamePrefixes {
+		if strings.HasPrefix(name, prefix) {
+			return true
+		}
+	}
+	return false
 }
 
 // sanitizeName cleans a name for use as a GLSL identifier.
